@@ -17,8 +17,8 @@ RULE = ('logit matrices T(3-40) x C(3-12): dense at several temperatures, sparse
 ASSUMPTIONS = ['shift invariance is judged on matrices whose entries are all stored (sparse-with-floor replaces pruned entries by a fixed floor, so a shift of the stored ones is not a shift of "all logits of the frame")',
                'no stored logit is exactly 0.0', 'tolerance 1e-9 (float64)']
 N = {'quick': 3000, 'thorough': 100000}
-CLASSES = ['dense', 'dense_peaky', 'sparse_floor', 'onehot', 'transformer', 'bag', 'bag_lm', 'bag_extreme', 'threshold', 'alto_wc']
-REQUIRED = ['bag_history_steps', 'repo_tests_under_contracts', 'line_conf_checked', 'shift_checked', 'onehot_checked', 'letter_conf_checked', 'page_conf_checked', 'bag_checked', 'monotone_checked', 'wc_checked',
+CLASSES = ['dense', 'dense_peaky', 'sparse_floor', 'onehot', 'transformer', 'bag', 'bag_lm', 'bag_extreme', 'threshold', 'alto_wc', 'tiny_logits']
+REQUIRED = ['tiny_logit_lines', 'repeated_calls_checked', 'bag_history_steps', 'repo_tests_under_contracts', 'line_conf_checked', 'shift_checked', 'onehot_checked', 'letter_conf_checked', 'page_conf_checked', 'bag_checked', 'monotone_checked', 'wc_checked',
             'contract:get_line_confidence in [0,1], one per label', 'contract:posteriors <= 0 and sum to 1', 'contract:compute_line_confidence in [0,1]']
 TOL = 1e-9
 
@@ -46,8 +46,12 @@ def gen(rng, i, ctx):
         lg = rng.normal(size=(L, C)) * float(rng.choice([1, 5]))
         lg[lg == 0] = 0.1
         return {'cls': cls, 'logits': lg, 'labels': labels}
-    mode = {'dense': 'noisy', 'dense_peaky': 'peaky', 'sparse_floor': 'noisy', 'onehot': 'onehot', 'threshold': 'noisy', 'alto_wc': str(rng.choice(['peaky', 'noisy', 'onehot']))}[cls]
+    mode = {'dense': 'noisy', 'dense_peaky': 'peaky', 'sparse_floor': 'noisy', 'onehot': 'onehot', 'threshold': 'noisy', 'alto_wc': str(rng.choice(['peaky', 'noisy', 'onehot'])), 'tiny_logits': 'onehot'}[cls]
     lg = genlib.logits_for_path(rng, path, C, mode=mode)
+    if cls == 'tiny_logits':
+        # stored log-posteriors of a near one-hot output: the winner's logit is a genuine stored value of magnitude 1e-9 .. 1e-12 (not a pruned 0.0)
+        lg = np.zeros_like(lg)
+        lg[np.arange(len(path)), path] = -10.0 ** float(rng.uniform(-12, -9))
     if cls == 'dense' and rng.random() < 0.5:
         lg = rng.normal(size=lg.shape) * float(rng.choice([1, 5, 20]))   # arg-max path unrelated to the labels
         lg[lg == 0] = 0.1
@@ -145,6 +149,8 @@ def check(case, mon, ctx):
     if cls == 'alto_wc':
         return check_alto(case, mon, ctx)
     stored = sparse.csc_matrix(lg) if cls != 'sparse_floor' else genlib.sparsify(lg, 1e-2)
+    if cls == 'tiny_logits':
+        mon.count('tiny_logit_lines')
     line = ctx.layout.TextLine(logits=stored)
     try:
         c = ctx.ce.get_line_confidence(line, np.array(labels))
@@ -154,6 +160,21 @@ def check(case, mon, ctx):
         mon.count('line_conf_checked')
         if not in_unit(c):
             mon.violation('line-confidence-in-unit-interval', {'confidences': c})
+    if c is not None:
+        # the four-argument form used by the exporters: the caller supplies the alignment and the log-posteriors and may reuse them
+        lp_caller = line.get_full_logprobs()
+        keep = lp_caller.copy()
+        try:
+            al_pos = ctx.fa.align_text(-lp_caller, np.array(labels), C - 1)
+            c_first = ctx.ce.get_line_confidence(line, np.array(labels), al_pos, lp_caller)
+            c_second = ctx.ce.get_line_confidence(line, np.array(labels), al_pos, lp_caller)
+            mon.count('repeated_calls_checked')
+            if not in_unit(c_first) or not in_unit(c_second) or np.abs(np.asarray(c_first) - np.asarray(c_second)).max() > 1e-12 or np.abs(np.asarray(c_first) - np.asarray(c)).max() > 1e-9:
+                mon.violation('line-confidence-in-unit-interval', {'note': 'second call with the same caller-supplied log-posteriors differs', 'first': c_first, 'second': c_second, 'without_supplied_matrices': c})
+            if not np.array_equal(lp_caller, keep):
+                mon.violation('computed-from-normalised-posteriors', {'note': 'the caller\'s log-posterior matrix was modified by get_line_confidence', 'max_abs_change': float(np.abs(lp_caller - keep).max())})
+        except ValueError:
+            pass
     v = ctx.pp.PageParser.compute_line_confidence(line)
     mon.count('page_conf_checked')
     if not in_unit(v):
@@ -193,7 +214,7 @@ def check(case, mon, ctx):
                     w = float(np.exp(lp.max(axis=1).min()))
                     if abs(w - thr) > 1e-9:
                         mon.violation('shift-invariance', {'function': 'line_confident_enough', 'threshold': thr})
-    if cls == 'onehot':
+    if cls in ('onehot', 'tiny_logits'):
         mon.count('onehot_checked')
         if c is None or np.abs(np.asarray(c) - 1).max() > 1e-6:
             mon.violation('one-hot-gives-1', {'function': 'get_line_confidence', 'got': c})
@@ -201,7 +222,7 @@ def check(case, mon, ctx):
             mon.violation('one-hot-gives-1', {'function': 'compute_line_confidence', 'got': v})
         if al is not None and np.abs(np.exp(lc) - 1).max() > 1e-6:
             mon.violation('one-hot-gives-1', {'function': 'get_letter_confidence', 'got': lc})
-        if not ctx.pp.line_confident_enough(lg, 0.999):
+        if not ctx.pp.line_confident_enough(dense, 0.999):
             mon.violation('one-hot-gives-1', {'function': 'line_confident_enough', 'threshold': 0.999})
     if cls == 'threshold':
         ths = case['thresholds']
